@@ -392,6 +392,8 @@ def run(ctx):
     # ---------------- structural clauses of the expansion pipeline
     from . import c13s
     c13s.run(ctx, ck)
+    from . import c15
+    c15.loader_chain_rule(ctx, ck, "C13-S12")
     ck.explanation = ("CHAR_ACCESS_MAP: %d inserts compared with the 94-character oracle; rows %s; row names %s; convert_row_to classes %s."
                       % (n_ins, {str(k): v for k, v in rowmap.items()}, disp, sorted(classes)))
 
